@@ -1102,6 +1102,23 @@ func WorkloadIdentity(p *core.Program, r *core.Report, rule string) {
 				parents = parents[:len(parents)-1]
 				return true
 			}
+			// a map keyed by <peer>.Name() identifies a workload by its name alone (the peer string has the kind)
+			if ix, ok := nd.(*ast.IndexExpr); ok {
+				if c, isCall := ast.Unparen(ix.Index).(*ast.CallExpr); isCall && len(c.Args) == 0 {
+					if fn := core.Callee(info, c); fn != nil && core.RefName(fn) == "Name" {
+						if cs, isSel := ast.Unparen(c.Fun).(*ast.SelectorExpr); isSel {
+							if t := info.TypeOf(cs.X); t != nil && (strings.HasSuffix(t.String(), "eval.Peer") || strings.HasSuffix(t.String(), "k8s.Peer") || core.TypeIs(t, core.PkgK8s, "WorkloadPeer")) {
+								if _, isMap := info.TypeOf(ix.X).Underlying().(*types.Map); isMap {
+									nameUse = true
+									if !pos.IsValid() {
+										pos = ix.Pos()
+									}
+								}
+							}
+						}
+					}
+				}
+			}
 			if se, ok := nd.(*ast.SelectorExpr); ok {
 				isName := fieldPathEndsWith(info, se, "Owner", "Name")
 				isKind := fieldPathEndsWith(info, se, "Owner", "Kind")
